@@ -24,7 +24,10 @@ PROP = {
             "(1 for the largest). POSITIONS: per shape and degree, one `bsweep` line = the difference (resp. the only agreement) placed at EVERY coefficient "
             "position in turn for polynomial-only shapes (and all shapes when n*moduli <= 160), at the boundary-directed positions otherwise (first/last two "
             "of every modulus row, around the last partial block for block sizes 2..128); poly -> bool one-hot at every position; a failing batch line is "
-            "expanded into its single evaluations for the report; class = backend:mode:root:difference class:degree class",
+            "expanded into its single evaluations for the report; class = backend:mode:root:difference class:degree class. "
+            "ACCEPTANCE BORDER: the comparison families the acceptance rules reject (== / != x operand kind poly / poly_p / sum / product / fused product per side, per "
+            "limb x backend; quick: a seed-rotated subset always containing a handle operand per root, thorough: all) are compiled alone; one the compiler accepts is "
+            "driven through the equal / differ-in-one / equal-in-one / unrelated patterns (`eboolx` lines: whole-polynomial comparison of the exact meanings)",
     "trusted_base": props.COMMON_TB + [
         "C++ overload resolution / template matching is observed per generated TU, not modelled (which of poly_p's operator== overloads is chosen is visible in the op name the harness prints)",
         "GCC vector extension: == / != on __m128i/__m256i compare 64-bit lanes and yield all-ones/zero lanes (modelled in cmpWord; observed by the stream in the sse/avx2 builds)",
